@@ -209,6 +209,17 @@ class C08(Property):
         ctx.traces += len(todo)
 
     def conformance(self, ctx: Ctx):
+        # the statement of `deltas_tile` on the real function: delta array of the repeated cell == np.tile of the unit array
+        from abtem.integrals import superpose_deltas
+
+        rng = ctx.rng
+        for _ in range(ctx.n(40, 600)):
+            n0, n1, r0, r1 = rng.randint(1, 6), rng.randint(1, 6), rng.randint(1, 3), rng.randint(1, 3)
+            pos = [[dyadic(rng, -n0, 2 * n0, 4), dyadic(rng, -n1, 2 * n1, 4)] for _ in range(rng.randint(1, 4))]
+            c = dict(oracle="deltas-tile", n=[n0, n1], reps=[r0, r1], positions=pos)
+            self.deltas_tile(ctx, c)
+            ctx.count("deltas-tile")
+            ctx.case(c, nontrivial=r0 * r1 > 1)
         kinds = ["shift", "repeat", "subpixel"]
         for i in range(ctx.n(24, 300)):
             c = gen_case(ctx, kinds[i % 3])
@@ -218,7 +229,21 @@ class C08(Property):
             ctx.count(f"{c['oracle']}:{c['projection']}:{'lazy' if c['lazy'] else 'eager'}")
             ctx.case(c, nontrivial=True)
 
+    def deltas_tile(self, ctx: Ctx, c):
+        from abtem.integrals import superpose_deltas
+
+        (n0, n1), (r0, r1) = c["n"], c["reps"]
+        pos = np.array(c["positions"], dtype=np.float64)
+        unit = superpose_deltas(pos, np.zeros((n0, n1), dtype=np.float64))
+        rep = np.concatenate([pos + np.array([a * n0, b * n1]) for a in range(r0) for b in range(r1)])
+        big = superpose_deltas(rep, np.zeros((n0 * r0, n1 * r1), dtype=np.float64))
+        if not np.array_equal(big, np.tile(unit, (r0, r1))):
+            ctx.violation("superpose-deltas-supercell-ne-tile", c, {"what": "delta array of the repeated cell differs from the tiled delta array",
+                                                                   "max_abs": float(np.abs(big - np.tile(unit, (r0, r1))).max())})
+
     def replay(self, ctx: Ctx, case):
+        if case.get("oracle") == "deltas-tile":
+            return self.deltas_tile(ctx, case)
         oracle(ctx, case)
 
 
